@@ -1,6 +1,6 @@
 """Translator anchor for fedjax/datasets/emnist.py domain_id (C20)."""
 import ast
-from lib.c20tr import A_no_process_dependence, D, _T, _unsupported
+from lib.c20tr import A_forwarding, A_no_process_dependence, D, _T, _unsupported
 
 SRC = 'fedjax/datasets/emnist.py'
 
@@ -38,6 +38,7 @@ MODULES = {
         'preamble': ('(* int(b"dddd"): decimal value of ASCII digits (python also accepts signs, underscores and\n'
                      '   surrounding whitespace; well-formed client ids have digits only) *)\n'
                      'Definition py_int_ascii (s : list Z) : Z := fold_left (fun acc c => 10 * acc + (c - 48)) s 0.\n'),
-        'items': [_domain_id, A_no_process_dependence('emnist_is_process_independent')],
+        'items': [_domain_id, A_no_process_dependence('emnist_is_process_independent'),
+                  A_forwarding('load_data', 'load_split', 'emnist_load_data_forwards')],
     },
 }
